@@ -10,7 +10,11 @@ import (
 // tree. They run through the same executor and oracles, without rapid.
 
 func runScript(t *testing.T, nClients int, body func(w *world)) {
-	p := c18Profile()
+	runScriptWith(t, c18Profile(), nClients, body)
+}
+
+func runScriptWith(t *testing.T, p *profile, nClients int, body func(w *world)) {
+	p.faultPct, p.probePct = 0, 100
 	res, failure := runInBubble(t, func() *world { return newWorldWith(nil, p, 7, nClients) }, func(w *world) {
 		body(w)
 		w.finalDrain()
@@ -137,6 +141,95 @@ func TestC18RegressCurrentStateIDFollowsFileHandle(t *testing.T) {
 		w.next(sess, 0, w.tOpenThen(inc, "a", "o1", accR|accW, "close", "save_restore", fhB, "b"), true, nil)
 		if w.labels["current_stateid_restored_by_restorefh"] != 2 || len(inc.opens) != 0 {
 			t.Fatalf("SAVEFH/RESTOREFH variant did not close the file: %v", w.labels)
+		}
+	})
+}
+
+// C19 (strict reading, part nfs41strict): a request that reuses slot and
+// sequence ID of a request that is still parked, with operations the
+// original's reply does not fit, must not receive that reply.
+func TestC19StrictRegressInflightFalseRetryRefused(t *testing.T) {
+	p := c19Profile()
+	p.strictInflightFalseRetry = true
+	runScriptWith(t, p, 1, func(w *world) {
+		sess := w.bootstrap(w.clients[0])
+		w.next(sess, 0, w.tLookup("a"), true, nil)
+		read := w.tIO(sess.inc, "READ", w.fhOf("a"), anonSID, "anon")
+		orig := w.next(sess, 1, read, true, map[string]bool{"io": true})
+		if w.parkOf(orig) == nil {
+			t.Fatalf("the READ did not park")
+		}
+		w.sendSeq(sess, 1, orig.seq, "false_retry", w.tOpen(sess.inc, "a", "o1", accR, "nocreate"), true, nil, nil)
+		w.stepNo++
+		w.record("release", "the parked READ")
+		w.release(w.parkOf(orig))
+		if w.labels["false_retry_inflight_rejected"] != 1 {
+			t.Fatalf("the false retry was not evaluated: %v", w.labels)
+		}
+	})
+}
+
+// C18: CLAIM_PREVIOUS without matching open state is refused and the file,
+// which the server opened before it looked, is closed again; with matching
+// open state it acts like another OPEN by that owner. Delegation claims
+// and share_deny are refused without touching anything.
+func TestC18RegressOpenClaims(t *testing.T) {
+	runScript(t, 1, func(w *world) {
+		sess := w.bootstrap(w.clients[0])
+		inc := sess.inc
+		w.next(sess, 0, w.tLookup("a"), true, nil)
+		fh := w.fhOf("a")
+		w.next(sess, 0, w.tOpenPrevious(inc, fh, "o1", accR|accW, nfsv4.OPEN_DELEGATE_NONE), true, nil)
+		w.next(sess, 0, w.tOpen(inc, "a", "o1", accR, "nocreate"), true, nil)
+		w.next(sess, 0, w.tOpenPrevious(inc, fh, "o1", accW, nfsv4.OPEN_DELEGATE_NONE), true, nil)
+		w.next(sess, 0, w.tOpenPrevious(inc, fh, "o1", accW, nfsv4.OPEN_DELEGATE_READ), true, nil)
+		w.next(sess, 0, w.tOpenPrevious(inc, fh, "o2", accW, nfsv4.OPEN_DELEGATE_NONE), true, nil)
+		for _, claim := range []string{"delegate_cur", "delegate_prev", "deleg_cur_fh", "deleg_prev_fh"} {
+			w.next(sess, 0, w.tOpenDelegClaim(inc, claim, fh, "a", "o1", accR, "nocreate", anonSID), true, nil)
+		}
+		for _, deny := range []uint32{1, 2, 3, 4} {
+			w.next(sess, 0, w.tOpenDeny(inc, nil, "c", "o1", accR, "unchecked", deny), true, nil)
+			w.next(sess, 0, w.tOpenDeny(inc, fh, "", "o1", accR, "nocreate", deny), true, nil)
+		}
+		if w.labels["claim_previous_refused_without_open_owner_file"] != 2 || w.labels["claim_previous_refused_with_open_owner_file"] != 1 ||
+			w.labels["claim_previous_granted_as_reopen"] != 1 || w.labels["share_deny_refused"] != 8 {
+			t.Fatalf("script did not reach the intended states: %v", w.labels)
+		}
+	})
+}
+
+// C18: an open file stays usable through its state ID and file handle
+// after RENAME replaced its last name, and after LINK + REMOVE of the
+// original name it is reachable under the new name.
+func TestC18RegressOpenFileSurvivesRenameAndLink(t *testing.T) {
+	runScript(t, 1, func(w *world) {
+		sess := w.bootstrap(w.clients[0])
+		inc := sess.inc
+		w.next(sess, 0, w.tOpen(inc, "a", "o1", accR|accW, "nocreate"), true, nil)
+		fhA := w.fhOf("a")
+		oa := inc.opens["o1|"+string(fhA)]
+		w.next(sess, 0, w.tRename("b", "a", false), true, nil)
+		if w.labels["open_file_unlinked_by_rename"] != 1 {
+			t.Fatalf("RENAME did not unlink the open file: %v", w.labels)
+		}
+		w.next(sess, 0, w.tProbe(fhA), true, nil)
+		w.next(sess, 0, w.tIO(inc, "WRITE", fhA, mkStateID(oa.seq, oa.other), "cur"), true, nil)
+		w.next(sess, 0, w.tLink(fhA, "c"), true, nil)
+		w.next(sess, 0, w.tClose(inc, fhA, mkStateID(oa.seq, oa.other), "cur"), true, nil)
+		w.next(sess, 0, w.tProbe(fhA), true, nil)
+		// LINK + REMOVE of the original name.
+		w.next(sess, 0, w.tOpen(inc, "a", "o2", accR, "nocreate"), true, nil)
+		fhB := w.fhOf("a")
+		ob := inc.opens["o2|"+string(fhB)]
+		w.next(sess, 0, w.tLink(fhB, "c"), true, nil)
+		w.next(sess, 0, w.tRemove("a"), true, nil)
+		w.next(sess, 0, w.tIO(inc, "READ", fhB, mkStateID(ob.seq, ob.other), "cur"), true, nil)
+		w.next(sess, 0, w.tRename("c", "b", true), true, nil)
+		w.next(sess, 0, w.tRemove("b"), true, nil)
+		w.next(sess, 0, w.tIO(inc, "READ", fhB, mkStateID(ob.seq, ob.other), "cur"), true, nil)
+		w.next(sess, 0, w.tProbe(fhB), true, nil)
+		if w.labels["link_to_open_file_created"] != 1 || w.labels["probe_unlinked_open_file_reachable"] != 2 || w.labels["probe_unlinked_closed_file_is_stale"] != 1 {
+			t.Fatalf("script did not reach the intended states: %v", w.labels)
 		}
 	})
 }
